@@ -296,6 +296,13 @@ class HierDictDocument(DictDocument):
                 retval.append(self._from_dict_value(ctx, i, serializer, child,
                                                                      validator))
 
+            if validator is self.SOFT_VALIDATION \
+                                   and self.get_cls_attrs(cls).validate_freq:
+                # the array itself is counted by the object that contains it,
+                # its items are counted here.
+                self._check_freq_dict(cls, {k: len(retval)
+                                                   for k in cls._type_info})
+
             return retval
 
         cls_attrs = self.get_cls_attrs(cls)
